@@ -161,6 +161,8 @@ func (f *Frame) fullPointee(t types.Type, ms *modSet, freshOnly bool) {
 func (f *Frame) modViaPointer(p Val, t types.Type, ms *modSet) {
 	if p.Loc != nil {
 		switch p.Loc.Kind {
+		case locLocal:
+			ms.addFull(p.Loc.Comp, p.Loc.CompSort)
 		case locField, locCell, locElem:
 			ms.addTarget(p.Loc.Comp, p.Loc.CompSort, p.Loc.Base)
 		}
@@ -668,7 +670,7 @@ func (f *Frame) frameObligation(label string, ec *effContract, pre *SpecEnv, h0,
 	var goals []Term
 	var infos []string
 	for _, name := range compNames(h1) {
-		if name == allocComp {
+		if name == allocComp || strings.HasPrefix(name, "L!") {
 			continue
 		}
 		t1 := h1.comps[name]
